@@ -65,6 +65,27 @@ def alias_correspondence(ctx):
 EQ_FIELDS = {}
 
 
+def relayout(m, depth=0):
+    """flip the memory order of every 2-D array held (recursively) by the object, reset cached hashes; None if nothing could be flipped"""
+    import mici.matrices as mm
+    changed = False
+    for name, val in list(vars(m).items()):
+        if isinstance(val, np.ndarray) and val.ndim == 2 and min(val.shape) > 1:
+            new = np.asfortranarray(val) if val.flags.c_contiguous else np.ascontiguousarray(val)
+            new.flags.writeable = val.flags.writeable
+            setattr(m, name, new)
+            changed = True
+        elif isinstance(val, mm.Matrix) and depth < 4:
+            changed |= relayout(val, depth + 1) is not None
+        elif isinstance(val, tuple) and depth < 4:
+            for v in val:
+                if isinstance(v, mm.Matrix):
+                    changed |= relayout(v, depth + 1) is not None
+    if hasattr(m, "_hash"):
+        m._hash = None
+    return m if changed else None
+
+
 def load_fields():
     import re
     for line in translate_matfields.generate().splitlines():
@@ -175,6 +196,20 @@ def search(ctx):
                     if not (c == m and hash(c) == hash(m) and np.allclose(np.asarray(c.array), np.asarray(m.array))):
                         bad += 1
                         ctx.fail(f"copy:{cls}:{cname}", f"{cls}: {cname} does not equal its original", {"kind": kind, "n": n, "seed": seed})
+                # memory layout is not part of a matrix's value: the same parameters held in Fortran order (as the library's own .T / .inv views are)
+                ml = relayout(copy.deepcopy(m2))
+                if n > 1 and ml is not None and not (ml == m and hash(ml) == hash(m)):
+                    bad += 1
+                    ctx.fail(f"eq_layout:{cls}", f"{cls}: an object whose parameter arrays hold the same values in a different memory order "
+                             f"{'does not compare equal' if not ml == m else 'compares equal but hashes differently'}", {"kind": kind, "n": n, "seed": seed})
+                # the library's own transposed views: (M.T).T and a matrix rebuilt from M.T's contiguous array
+                if isinstance(m, (mm.DenseSquareMatrix, mm.TriangularMatrix, mm.OrthogonalMatrix)) and n > 1:
+                    t = m.T
+                    rebuilt = type(t)(np.ascontiguousarray(np.asarray(t.array))) if not isinstance(t, mm.TriangularMatrix) else type(t)(np.ascontiguousarray(np.asarray(t.array)), lower=t.lower)
+                    if not (t == rebuilt and hash(t) == hash(rebuilt)):
+                        bad += 1
+                        ctx.fail(f"eq_layout:{cls}:transpose", f"{cls}: M.T and the same matrix rebuilt from a contiguous copy of its array "
+                                 f"{'do not compare equal' if not t == rebuilt else 'compare equal but hash differently'}", {"kind": kind, "n": n, "seed": seed})
                 m3, d3 = matzoo.make_leaf(np.random.default_rng(seed + 7), n, kind)
                 if m == m3 and not np.allclose(np.asarray(m.array), np.asarray(m3.array)):
                     bad += 1
